@@ -29,6 +29,16 @@ func NewTableWriter(fs storage.FileSystem, id int64) *TableWriter {
 	return &TableWriter{fs: fs, id: atomicNum}
 }
 
+// StartAt makes the writer use table IDs of at least id from now on.
+func (c *TableWriter) StartAt(id int64) {
+	for {
+		cur := c.id.Load()
+		if cur >= id || c.id.CompareAndSwap(cur, id) {
+			return
+		}
+	}
+}
+
 func (c *TableWriter) Write(entries iter.Seq[kv.Entry]) (*Table, error) {
 	reservedNum := c.id.Add(1) - 1
 	f := c.fs.New(fmt.Sprintf("%06d.sst", reservedNum))
